@@ -212,5 +212,5 @@ def cases(draw):
 
 
 CLAUSES = [
-    Clause('export-import', check_case, kind='random', strategy=cases, budget={'quick': 1200, 'thorough': 12000}),
+    Clause('export-import', check_case, kind='random', strategy=cases, budget={'quick': 5000, 'thorough': 40000}),
 ]
